@@ -2,7 +2,8 @@
    model side of the correspondence lives here (in Gallina); the OCaml driver is generic. *)
 From Coq Require Import Strings.String.
 From ZipV Require Import Base.Bytes Base.Outcome Gen.GenLib Gen.TypesGen Model.Dos Extract.Obs.
-From ZipV Require Import Spec.PathSpec Model.Path Spec.Utf8 Model.Cp437 Gen.CompressionGen Model.Readers Model.Reader Spec.Crc32Spec Model.Stream Spec.Aes Spec.Sha1 Spec.Fs Model.Extract.
+From ZipV Require Import Spec.PathSpec Model.Path Spec.Utf8 Model.Cp437 Gen.CompressionGen Model.Readers Model.Reader Spec.Crc32Spec Model.Stream Spec.Aes Spec.Sha1 Spec.Fs Model.Extract Model.Writer.
+From Coq Require Import ZArith.
 Open Scope string_scope.
 Open Scope N_scope.
 
@@ -82,11 +83,11 @@ Fixpoint read_loop {S} (rd : reader S) (fuel : nat) (s : S) (n : N) (acc : bytes
       match pre with
       | Ok (_, s0) =>
           match rd s0 (if n =? 0 then 3 else n) with
-          | Ok (bs, s') => if len bs =? 0 then OL [T "Ok"; OB acc] else read_loop rd f s' n (acc ++ bs)
-          | Err e => OL [T "Err"; err_obs e; OB acc]
+          | Ok (bs, s') => if len bs =? 0 then OL [T "Ok"; OB (rev_append acc [])] else read_loop rd f s' n (rev_append bs acc)
+          | Err e => OL [T "Err"; err_obs e; OB (rev_append acc [])]
           | Panic p => OL [T "PANIC"; site_obs p]
           end
-      | Err e => OL [T "Err"; err_obs e; OB acc]
+      | Err e => OL [T "Err"; err_obs e; OB (rev_append acc [])]
       | Panic p => OL [T "PANIC"; site_obs p]
       end
   end.
@@ -223,12 +224,12 @@ Definition visit_obs (data : bytes) : obs :=
 (* read an entry to the end: bytes delivered and how it ended *)
 Fixpoint read_all_split {S} (rd : reader S) (fuel : nat) (s : S) (acc : bytes) : bytes * option err :=
   match fuel with
-  | O => (acc, None)
+  | O => (rev_append acc [], None)
   | Datatypes.S f =>
       match rd s 8192 with
-      | Ok (bs, s') => if len bs =? 0 then (acc, None) else read_all_split rd f s' (acc ++ bs)
-      | Err e => (acc, Some e)
-      | Panic _ => (acc, None)
+      | Ok (bs, s') => if len bs =? 0 then (rev_append acc [], None) else read_all_split rd f s' (rev_append bs acc)
+      | Err e => (rev_append acc [], Some e)
+      | Panic _ => (rev_append acc [], None)
       end
   end.
 
@@ -331,6 +332,159 @@ Definition extract_obs (data : bytes) (mode : N) : obs :=
     | bad => OL [xres_obs bad; tree_obs (fst st1)]
     end.
 
+(* ---------- writer programs (C01 C02 C08 C11 C12 C13 C14 C17) *)
+Inductive wop :=
+| OStartFile (name : bytes) (o : wopts)
+| OWrite (data : bytes)
+| OStartExtra (name : bytes) (o : wopts)
+| OStartAligned (name : bytes) (o : wopts) (align : N)
+| OEndLocal | OEndExtra
+| OAddDir (name : bytes) (o : wopts)
+| OSymlink (name target : bytes) (o : wopts)
+| OComment (c : bytes)
+| ORawCopy (src : bytes) (idx : N) (name : option bytes)
+| OFinish.
+
+Definition mk_opts (method lvlflag lvlabs date time permflag perm large pwflag : N) (pw : bytes) : wopts :=
+  {| o_method := CompressionMethod_from_u16 method;
+     o_level := if lvlflag =? 0 then None else Some (if lvlflag =? 1 then Z.of_N lvlabs else (- Z.of_N lvlabs)%Z);
+     o_time := match DateTime_from_msdos date time with Some dt => dt | None => DateTime_default end;
+     o_perm := if permflag =? 0 then None else Some perm;
+     o_large := negb (large =? 0);
+     o_encrypt := if pwflag =? 0 then None else Some pw |}.
+
+(* flat argument list -> (sink plan, append base, oracle table, program) *)
+Record wprog := { wp_plan : list wev; wp_base : option bytes; wp_enc : list (N * bytes * bytes); wp_ops : list wop }.
+
+Fixpoint parse_wprog (fuel : nat) (args : list arg) (acc : wprog) : option wprog :=
+  match fuel with O => None | Datatypes.S f =>
+  match args with
+  | [] => Some {| wp_plan := wp_plan acc; wp_base := wp_base acc; wp_enc := wp_enc acc; wp_ops := rev (wp_ops acc) |}
+  | AN code :: r =>
+      let push op rest := parse_wprog f rest {| wp_plan := wp_plan acc; wp_base := wp_base acc; wp_enc := wp_enc acc; wp_ops := op :: wp_ops acc |} in
+      if (code =? 1) || (code =? 3) || (code =? 7) then
+        match r with
+        | AB name :: AN m :: AN lf :: AN la :: AN d :: AN t :: AN pf :: AN pm :: AN lg :: AN wf :: AB pw :: rest =>
+            let o := mk_opts m lf la d t pf pm lg wf pw in
+            push (if code =? 1 then OStartFile name o else if code =? 3 then OStartExtra name o else OAddDir name o) rest
+        | _ => None end
+      else if code =? 4 then
+        match r with
+        | AB name :: AN m :: AN lf :: AN la :: AN d :: AN t :: AN pf :: AN pm :: AN lg :: AN wf :: AB pw :: AN al :: rest =>
+            push (OStartAligned name (mk_opts m lf la d t pf pm lg wf pw) al) rest
+        | _ => None end
+      else if code =? 8 then
+        match r with
+        | AB name :: AN m :: AN lf :: AN la :: AN d :: AN t :: AN pf :: AN pm :: AN lg :: AN wf :: AB pw :: AB target :: rest =>
+            push (OSymlink name target (mk_opts m lf la d t pf pm lg wf pw)) rest
+        | _ => None end
+      else if code =? 2 then match r with AB data :: rest => push (OWrite data) rest | _ => None end
+      else if code =? 5 then push OEndLocal r
+      else if code =? 6 then push OEndExtra r
+      else if code =? 9 then match r with AB c :: rest => push (OComment c) rest | _ => None end
+      else if code =? 10 then
+        match r with
+        | AB src :: AN idx :: AN rn :: AB nm :: rest => push (ORawCopy src idx (if rn =? 0 then None else Some nm)) rest
+        | _ => None end
+      else if code =? 11 then push OFinish r
+      else if code =? 13 then
+        match r with
+        | AN m :: AB content :: AB payload :: rest =>
+            parse_wprog f rest {| wp_plan := wp_plan acc; wp_base := wp_base acc; wp_enc := (m, content, payload) :: wp_enc acc; wp_ops := wp_ops acc |}
+        | _ => None end
+      else if code =? 14 then
+        match r with
+        | AB base :: rest => parse_wprog f rest {| wp_plan := wp_plan acc; wp_base := Some base; wp_enc := wp_enc acc; wp_ops := wp_ops acc |}
+        | _ => None end
+      else if code =? 15 then
+        match r with
+        | AB plan :: rest =>
+            parse_wprog f rest {| wp_plan := map (fun b => if b2n b =? 0 then WFail else WShort (if b2n b =? 255 then 4294967295 else b2n b)) plan;
+                                  wp_base := wp_base acc; wp_enc := wp_enc acc; wp_ops := wp_ops acc |}
+        | _ => None end
+      else None
+  | _ => None
+  end end.
+
+(* the compressor oracle: payloads observed from the implementation, keyed by (method, content) *)
+Fixpoint enc_lookup (tbl : list (N * bytes * bytes)) (m : N) (content : bytes) : bytes :=
+  match tbl with
+  | [] => []
+  | (m', c, p) :: r => if (m' =? m) && bytes_eqb c content then p else enc_lookup r m content
+  end.
+Definition enc_of (tbl : list (N * bytes * bytes)) (m : CompressionMethod) (lvl : Z) (content : bytes) : bytes :=
+  enc_lookup tbl (CompressionMethod_to_u16 m) content.
+
+Definition unit_res_obs (r : res unit) : obs := res_obs (fun _ => T "unit") r.
+Definition n_res_obs (r : res N) : obs := res_obs ON r.
+
+Definition run_wop (tbl : list (N * bytes * bytes)) (s : wstate) (op : wop) : wstate * obs :=
+  let enc := enc_of tbl in
+  match op with
+  | OStartFile n o => let '(s', r) := start_file enc crc32 s n o in (s', unit_res_obs r)
+  | OWrite d => let '(s', r) := zw_write_all s d in (s', unit_res_obs r)
+  | OStartExtra n o => let '(s', r) := start_file_with_extra_data enc crc32 s n o in (s', n_res_obs r)
+  | OStartAligned n o a => let '(s', r) := start_file_aligned enc crc32 s n o a in (s', n_res_obs r)
+  | OEndLocal => let '(s', r) := end_local_start_central enc s in (s', n_res_obs r)
+  | OEndExtra => let '(s', r) := end_extra_data enc s in (s', n_res_obs r)
+  | OAddDir n o => let '(s', r) := add_directory enc crc32 s n o in (s', unit_res_obs r)
+  | OSymlink n t o => let '(s', r) := add_symlink enc crc32 s n t o in (s', unit_res_obs r)
+  | OComment c => (Writer.set_comment s c, OL [T "Ok"; T "unit"])
+  | ORawCopy src idx nm =>
+      match open src with
+      | Ok ar =>
+          match nth_error (ar_files ar) (N.to_nat idx) with
+          | Some f =>
+              match find_content src f with
+              | Ok (ds, _) =>
+                  let raw := take (f_csize f) (drop ds src) in
+                  let '(s', r) := raw_copy enc crc32 s f raw (match nm with Some n => n | None => f_name f end) in (s', unit_res_obs r)
+              | Err e => (s, OL [T "SrcErr"; err_obs e])
+              | Panic p => (s, OL [T "PANIC"; site_obs p])
+              end
+          | None => (s, OL [T "SrcErr"; err_obs ENotFound])
+          end
+      | Err e => (s, OL [T "SrcErr"; err_obs e])
+      | Panic p => (s, OL [T "PANIC"; site_obs p])
+      end
+  | OFinish => let '(s', r) := finish enc crc32 s in (s', res_obs OB r)
+  end.
+
+Fixpoint run_wops (tbl : list (N * bytes * bytes)) (s : wstate) (ops : list wop) (acc : list obs) : wstate * list obs :=
+  match ops with
+  | [] => (s, rev_append acc [])
+  | op :: r => let '(s', o) := run_wop tbl s op in
+               match o with
+               | OL (OT _ :: _) => run_wops tbl s' r (o :: acc)
+               | _ => run_wops tbl s' r (o :: acc)
+               end
+  end.
+
+Definition wprog_obs (args : list arg) : obs :=
+  match parse_wprog (Datatypes.S (length args)) args {| wp_plan := []; wp_base := None; wp_enc := []; wp_ops := [] |} with
+  | None => T "BADPROG"
+  | Some p =>
+      let init := match wp_base p with
+                  | None => Ok (new_writer (wp_plan p))
+                  | Some b => new_append b (wp_plan p)
+                  end in
+      match init with
+      | Err e => OL [T "AppendErr"; err_obs e]
+      | Panic q => OL [T "PANIC"; site_obs q]
+      | Ok s0 =>
+          let '(s1, outs) := run_wops (wp_enc p) s0 (wp_ops p) [] in
+          (* the writer is dropped at the end: finalises unless closed *)
+          let before := sink_bytes s1 in
+          let '(s2, dr) := drop_writer (enc_of (wp_enc p)) crc32 s1 in
+          let final := match sink_bytes s2, before with
+                       | Some b, _ => Some b
+                       | None, Some b => Some b
+                       | None, None => None
+                       end in
+          OL [OL outs; unit_res_obs dr; match final with Some b => OB b | None => T "SKIP" end]
+      end
+  end.
+
 Fixpoint insert_sorted (x : bytes) (l : list bytes) : list bytes :=
   match l with
   | [] => [x]
@@ -374,6 +528,7 @@ Definition dispatch_reader (op : bytes) (args : list arg) : option obs :=
     match args with
     | [AB data; AN mode] => Some (extract_obs data mode)
     | _ => None end
+  else if is_op op "wprog" then Some (wprog_obs args)
   else if is_op op "byname" then
     match args with
     | [AB data; AB name] =>
